@@ -32,6 +32,33 @@ def cpp_writer_rules(ck, rule):
     ck.expect(okw, rule, "cpp/runtime/WriteFromString", "len = cap = string.length(), callbacks wired", "WriteFromString no longer initialises {context, buf, len, cap, grow_failed, flush, grow} consistently", W)
 
 
+def cpp_write_return_rules(ck, rule, facts):
+    """Every C++ return conversion that unwraps a `.ok` payload for out-types hands back the written string (`output`) for SuccessType::Write in the
+    same match, in an arm of its own (shared with C12: the string Rust wrote is what the C++ method returns, for every return shape)."""
+    tool = facts.tool
+    f = tool.fn("cpp::ty::TyGenContext::gen_c_to_cpp_for_return_type")
+    nodes = list(C.walk_inl(tool, C.fn_body(f), 2, exclude=[f["path"]]))
+    n = 0
+    for mt in nodes:
+        if mt.get("k") != "match" or not (mt.get("sadt") or "").endswith("methods::SuccessType"):
+            continue
+        arm_txt = {}
+        for arm in mt["arms"]:
+            vs = [(v or "").split("::")[-1] for v in [arm["pat"].get("v")] + [a_.get("v") for a_ in (arm["pat"].get("alts") or [])] if v]
+            txt = " ".join(C.str_lits(arm["b"]) + [m_.get("src", "") for m_ in C.walk(arm["b"]) if m_.get("k") == "macro"])
+            for v in vs:
+                arm_txt[v] = (txt, tuple(vs))
+        if not any(".ok" in t for t, _ in arm_txt.values()):
+            continue  # a type-name match, not a value conversion
+        n += 1
+        w = arm_txt.get("Write")
+        ok = w is not None and "output" in w[0] and w[1] == ("Write",)
+        ck.expect(ok, rule, "cpp::gen_c_to_cpp_for_return_type/write-returns-output#%d" % n, "Write -> std::move(output)",
+                  "a return conversion unwraps `.ok` for out-types but yields `%s` for SuccessType::Write (arm %s): the string Rust wrote is dropped for this return shape" % ((w or ("<no arm>",))[0][:40], (w or (None, None))[1]), C.loc(f, mt.get("ln")))
+    direct = any(x.get("k") == "lit" and "std::move(output)" in str(x.get("v", "")) for x in nodes)
+    ck.expect(n >= 1 and direct, rule, "cpp::gen_c_to_cpp_for_return_type/write-conversions", "%d conversion matches" % n, "no value-conversion match over SuccessType found (anchor lost)", C.loc(f))
+
+
 def run(ck, facts):
     tool = facts.tool
     adts = facts.all_adts()
@@ -208,6 +235,7 @@ def run(ck, facts):
     ok_sp = dflt is not None and re.sub(r"\s+", "", dflt) in ("0", "(Extent==dynamic_extent?0:Extent)", "Extent==dynamic_extent?0:Extent")
     ck.expect(ok_sp, "R6", "span/default-size", str(dflt), "the bundled C++17 span's default size is `%s`: a default-constructed span must have size() == 0 like std::span "
               "(with Extent = dynamic_extent = SIZE_MAX it claims SIZE_MAX elements at nullptr)" % dflt, W)
+    cpp_write_return_rules(ck, "R4", facts)
     # enum wrapper
     import c11
     sub = C.SubCheck(ck, "R6", "", ["R1"], key_re=r"^cpp/")
